@@ -1,3 +1,4 @@
+#![forbid(unsafe_code)]
 //! rt: interpreter of operation lines over the REAL gecs API (in-process), plus the
 //! sequence generator.  Output is a trace `op => observation`, canonical (no addresses,
 //! no hash order), deterministic in the seed.
